@@ -720,7 +720,7 @@ func c30RTPPacket(r *rand.Rand) []byte {
 
 func c30Gen(c *Ctx) {
 	r := c.Rng
-	bases := append(c30BrowserBases(), c30PionBases()...)
+	bases := append(c30BrowserBases(), c30PionBasesInWorker()...)
 	modes := []int{
 		0, c30ModeTracks, c30ModeTracks | c30ModeData, c30ModeData, c30ModeAudioOnl, c30ModeVideoOnl | c30ModeTracks,
 		c30ModeAudioOnl | c30ModeVideoOnl, c30ModeTracks | c30ModeReoffer, c30ModeNoSettle, c30ModeLite, c30ModeTracks | c30ModeData | c30ModeNoSettle,
@@ -789,7 +789,10 @@ func c30Gen(c *Ctx) {
 		}
 	}
 	// 3. candidate strings against a connection with a valid remote description
-	pion := bases[len(c30BrowserBases())]
+	pion := bases[0]
+	if len(bases) > len(c30BrowserBases()) {
+		pion = bases[len(c30BrowserBases())]
+	}
 	for i := 0; i < c.N(150, 2000); i++ {
 		cands := []string{}
 		for k := 4 + r.Intn(8); k > 0; k-- {
@@ -802,5 +805,6 @@ func c30Gen(c *Ctx) {
 		c.Emit("rp %d %d %d %s", r.Intn(16), r.Intn(16), r.Intn(16), hx(c30RTPPacket(r)))
 	}
 	c30GenHelpers(c, bases)
+	c30GenProbes(c, bases)
 	c30GenPairs(c)
 }
